@@ -24,6 +24,11 @@ var bech32Config = config{
 	pad:      true,
 }
 
+// a bech32 string holds at most 90 characters (BIP-173), longer strings are refused by the bech32 decoder;
+// the separator takes 1 character and the checksum 6
+const maxBech32StringLen = 90
+const bech32SeparatorAndChecksumLen = 7
+
 var log = logger.GetOrCreate("data/state/pubkeyconverter")
 
 // bech32PubkeyConverter encodes or decodes provided public key as/from bech32 format
@@ -40,6 +45,13 @@ func NewBech32PubkeyConverter(addressLen int) (*bech32PubkeyConverter, error) {
 	if addressLen%2 == 1 {
 		return nil, fmt.Errorf("%w when creating hex address converter, addressLen should have been an even number",
 			state.ErrInvalidAddressLength)
+	}
+
+	numDataCharacters := (addressLen*int(bech32Config.fromBits) + int(bech32Config.toBits) - 1) / int(bech32Config.toBits)
+	encodedLen := len(bech32Config.prefix) + bech32SeparatorAndChecksumLen + numDataCharacters
+	if encodedLen > maxBech32StringLen {
+		return nil, fmt.Errorf("%w when creating bech32 address converter, an address of %d bytes is encoded on %d characters and could not be decoded (maximum %d)",
+			state.ErrInvalidAddressLength, addressLen, encodedLen, maxBech32StringLen)
 	}
 
 	return &bech32PubkeyConverter{
